@@ -30,6 +30,70 @@ RoundTrip == fl = 999 \/
   /\ (Part => p.partflags = 66)
   /\ p.tail = [i \in 1..tl |-> 240 + i]
   /\ StreamSync(p) = (IF Grp /\ cl THEN 28 ELSE 255)
+\* tie between Ebp!Nanos (Wide arithmetic) and the integer reading floor(f * 10^9 / 2^32) that Apa_C12 reasons about,
+\* on boundary fractions and 45 random ones (expected values computed with unbounded integers outside TLC)
+NanosSamples == <<
+  <<<<0, 0, 0, 0>>, 0>>,
+  <<<<0, 0, 0, 1>>, 0>>,
+  <<<<0, 0, 0, 4>>, 0>>,
+  <<<<0, 0, 0, 5>>, 1>>,
+  <<<<255, 255, 255, 255>>, 999999999>>,
+  <<<<128, 0, 0, 0>>, 500000000>>,
+  <<<<127, 255, 255, 255>>, 499999999>>,
+  <<<<1, 0, 0, 0>>, 3906250>>,
+  <<<<0, 1, 0, 0>>, 15258>>,
+  <<<<0, 0, 0, 255>>, 59>>,
+  <<<<0, 0, 1, 0>>, 59>>,
+  <<<<0, 65, 137, 55>>, 999999>>,
+  <<<<0, 65, 137, 56>>, 1000000>>,
+  <<<<0, 0, 16, 198>>, 999>>,
+  <<<<0, 0, 16, 199>>, 1000>>,
+  <<<<121, 125, 118, 222>>, 474570683>>,
+  <<<<170, 153, 224, 121>>, 666410474>>,
+  <<<<36, 129, 116, 229>>, 142600351>>,
+  <<<<95, 239, 233, 17>>, 374754492>>,
+  <<<<207, 114, 248, 88>>, 810348054>>,
+  <<<<153, 249, 22, 177>>, 601457040>>,
+  <<<<142, 229, 139, 6>>, 558190049>>,
+  <<<<112, 167, 110, 73>>, 440054791>>,
+  <<<<41, 138, 89, 248>>, 162267325>>,
+  <<<<231, 237, 216, 103>>, 905972981>>,
+  <<<<209, 158, 50, 36>>, 818820127>>,
+  <<<<215, 167, 191, 94>>, 842403374>>,
+  <<<<130, 72, 248, 3>>, 508925915>>,
+  <<<<252, 180, 208, 43>>, 987133989>>,
+  <<<<242, 91, 200, 207>>, 946713018>>,
+  <<<<208, 209, 143, 176>>, 815697651>>,
+  <<<<152, 145, 141, 216>>, 595970978>>,
+  <<<<185, 240, 152, 37>>, 726327427>>,
+  <<<<247, 171, 98, 168>>, 967458883>>,
+  <<<<169, 225, 110, 39>>, 663596043>>,
+  <<<<176, 171, 87, 122>>, 690114466>>,
+  <<<<172, 124, 96, 59>>, 673772825>>,
+  <<<<29, 36, 30, 214>>, 113832404>>,
+  <<<<60, 39, 39, 40>>, 234972426>>,
+  <<<<93, 2, 178, 0>>, 363322377>>,
+  <<<<128, 0, 203, 96>>, 500012122>>,
+  <<<<7, 52, 101, 184>>, 28143269>>,
+  <<<<110, 30, 152, 226>>, 430154376>>,
+  <<<<132, 221, 1, 250>>, 518997310>>,
+  <<<<109, 95, 205, 24>>, 427243059>>,
+  <<<<99, 100, 25, 17>>, 388246122>>,
+  <<<<140, 202, 236, 113>>, 549971368>>,
+  <<<<45, 148, 167, 120>>, 178049532>>,
+  <<<<178, 38, 53, 203>>, 695895540>>,
+  <<<<9, 110, 190, 196>>, 36846087>>,
+  <<<<70, 203, 211, 85>>, 276547630>>,
+  <<<<117, 146, 50, 96>>, 459262035>>,
+  <<<<53, 115, 124, 143>>, 208793435>>,
+  <<<<72, 42, 82, 162>>, 281895794>>,
+  <<<<123, 36, 108, 23>>, 481024509>>,
+  <<<<42, 229, 104, 186>>, 167563004>>,
+  <<<<93, 59, 188, 224>>, 364192776>>,
+  <<<<191, 159, 132, 45>>, 748527775>>,
+  <<<<87, 127, 136, 71>>, 341789738>>,
+  <<<<10, 62, 241, 158>>, 40022946>> >>
+ASSUME \A i \in 1..Len(NanosSamples) : Nanos(NanosSamples[i][1]) = NanosSamples[i][2]
 ASSUME Nanos(<<128, 0, 0, 0>>) = 500000000
 ASSUME Nanos(<<255, 255, 255, 255>>) = 999999999
 ASSUME Nanos(<<0, 0, 0, 5>>) = 1
